@@ -293,6 +293,13 @@ func (x *Exec) valEq(st *State, a, b *Val) string {
 		}
 		return and(cs...)
 	case KIface:
+		// comparison with the nil interface: the type tag decides
+		if b.K == KIface && b.E[0].S == "0" {
+			return eq(a.E[0].S, "0")
+		}
+		if a.E[0].S == "0" {
+			return eq(b.E[0].S, "0")
+		}
 		x.materialize(st, a)
 		x.materialize(st, b)
 		return and(eq(a.E[0].S, b.E[0].S), eq(a.E[1].S, b.E[1].S))
